@@ -882,7 +882,8 @@ Section Core.
      | None => ret tt end) ;;;
     (if init_wrapper_ok k kw' then ret tt else fail TypeErr) ;;;
     l <- alloc (OInst c []) ;;
-    rec (KInit c l kw') ;;;
+    (* the generated __init__ is the owner's (a plain subclass inherits it) *)
+    rec (KInit (c_owner k) l kw') ;;;
     ret (VRef l).
 
   Definition body (k : call) : M val :=
